@@ -117,6 +117,10 @@ IncreaseFee(u, i, f) ==
      /\ op' = this
      /\ UNCHANGED <<bt, cl, ntx, nbt, ncl, fxH, obsExt, obsFx, lastObs, parked, extH, queue, xbt, xlast, xcl, cobs, ndep, obsDep, obsOut, extIn, extOut>>
 
+\* the added fee must be paid in the transfer's own token: paying with ANOTHER bridged token of the same
+\* chain is refused and changes nothing
+IncreaseFeeOther(u, i, f) == Rej(Op("IncreaseFee", u, i, 0, f, "other", "ok"))
+
 \* MsgRequestBatch by a bridger: all pooled transfers with fee >= baseFee
 RequestBatch(base, minf) ==
   LET this == Op("RequestBatch", None, 0, base, minf, None, "ok")
@@ -252,7 +256,7 @@ Probe == op' = Op("Probe", None, 0, 0, 0, None, "ok") /\ UNCHANGED svars
 
 Next ==
   \/ \E u \in User, a \in Amt, f \in Fee : SendToExternal(u, a, f)
-  \/ \E u \in User, i \in 1..MaxTx : Cancel(u, i) \/ IncreaseFee(u, i, 1)
+  \/ \E u \in User, i \in 1..MaxTx : Cancel(u, i) \/ IncreaseFee(u, i, 1) \/ IncreaseFeeOther(u, i, 1)
   \/ \E b \in BaseFees, m \in MinFees : RequestBatch(b, m)
   \/ \E u \in User, a \in Amt : BridgeCall(u, a)
   \/ FxBlock \/ ExtBlock
@@ -268,7 +272,7 @@ Spec == Init /\ [][Next]_vars
 Do(e) ==
   CASE e.name = "Send"         -> SendToExternal(e.u, e.a, e.f)
     [] e.name = "Cancel"       -> Cancel(e.u, e.id)
-    [] e.name = "IncreaseFee"  -> IncreaseFee(e.u, e.id, e.f)
+    [] e.name = "IncreaseFee"  -> IF e.e = "other" THEN IncreaseFeeOther(e.u, e.id, e.f) ELSE IncreaseFee(e.u, e.id, e.f)
     [] e.name = "RequestBatch" -> RequestBatch(e.a, e.f)
     [] e.name = "BridgeCall"   -> BridgeCall(e.u, e.a)
     [] e.name = "FxBlock"      -> FxBlock
@@ -346,6 +350,7 @@ A_C05_LeavesOnlyBySettlement ==
 C05_LeavesOnlyBySettlement == [][A_C05_LeavesOnlyBySettlement]_vars
 A_C05_FeeIncreaseExact ==
   (op'.name = "IncreaseFee" /\ op'.res = "ok") =>
+     /\ op'.e # "other"     \* paid in the transfer's own token
      /\ bal' = [bal EXCEPT ![op'.u] = @ - op'.f] /\ tx' = [tx EXCEPT ![op'.id].fee = @ + op'.f]
 C05_FeeIncreaseExact == [][A_C05_FeeIncreaseExact]_vars
 \* a cancelled batch returns its transfers to the pool unchanged
